@@ -177,6 +177,21 @@ fn encode<'t, T>(
     use crate::token::LeafKind::{Class, Literal, Separator, Wildcard};
     use crate::token::Wildcard::{One, Tree, ZeroOrMore};
 
+    // Composes the position of a branch token with the position of its ancestors. A nested
+    // concatenation only begins (ends) the expression if all of its ancestors do too.
+    fn superpose(superposition: Option<Position>, position: Position) -> Option<Position> {
+        Some(superposition.map_or(position, |superposition| {
+            let is_first = matches!(superposition, First | Only) && matches!(position, First | Only);
+            let is_last = matches!(superposition, Last | Only) && matches!(position, Last | Only);
+            match (is_first, is_last) {
+                (true, true) => Only,
+                (true, false) => First,
+                (false, true) => Last,
+                (false, false) => Middle,
+            }
+        }))
+    }
+
     fn encode_intermediate_tree(grouping: Grouping, pattern: &mut String) {
         pattern.push_str(sepexpr!("(?:{0}|{0}"));
         grouping.push_str(pattern, sepexpr!(".*{0}"));
@@ -295,7 +310,7 @@ fn encode<'t, T>(
                             pattern.push_str("(?:");
                             encode::<Token<_>>(
                                 Grouping::NonCapture,
-                                superposition.or(Some(position)),
+                                superpose(superposition, position),
                                 &mut pattern,
                                 token,
                             );
@@ -313,7 +328,7 @@ fn encode<'t, T>(
                         pattern.push_str("(?:");
                         encode::<Token<_>>(
                             Grouping::NonCapture,
-                            superposition.or(Some(position)),
+                            superpose(superposition, position),
                             &mut pattern,
                             repetition.token(),
                         );
